@@ -67,7 +67,7 @@ static const char *SCH =
 static const char *DOC_FMT =
     "<c xmlns=\"urn:vq\"><s>hello %s</s><b>aGVsbG8=</b><bi>gamma alpha</bi><l>1</l><l>2</l><l>3</l>"
     "<li><k>a</k><v>1</v><d>1.5</d></li><li><k>b</k><v>2</v><d>-0.25</d></li><li><k>%s</k><v>3</v></li>"
-    "%s<dt>2024-02-29T12:00:00+01:00</dt><ip4>198.51.100.7</ip4><ip6>2001:DB8::1</ip6>"
+    "%s<dt>%s</dt><ip4>198.51.100.7</ip4><ip6>2001:DB8::1</ip6>"
     "<p4>192.0.2.77/24</p4><p6>2001:db8:1::ffff/48</p6><idr>id-a</idr><e>two</e><bo>true</bo><lr>b</lr><m>fine</m></c>";
 /* the union-typed leaves (inet:ip-address is a union) */
 static const char *DOC_UNIONS = "<u>two one</u><ip>192.0.2.1</ip>";
@@ -159,12 +159,16 @@ do_private(struct work *k, int it)
     struct ly_ctx *ctx = k->w->ctx;
     struct lyd_node *t = NULL, *t2 = NULL, *t3 = NULL, *d = NULL, *back = NULL;
     struct ly_set *set = NULL;
-    char doc[2048], marker[48], path[128], *s = NULL;
+    char doc[2048], marker[48], path[128], dtv[64], *s = NULL;
     struct ly_out *out;
     LY_ERR r;
 
     snprintf(marker, sizeof marker, "t%d-%d", k->id, (it + k->seed) % 5);
-    snprintf(doc, sizeof doc, DOC_FMT, marker, marker, DOC_UNIONS);
+    /* a date-and-time value of its own per thread and iteration: its canonical form goes through the libc time conversion, whose
+     * non-reentrant variants share one static result between threads (seed C16r3) */
+    snprintf(dtv, sizeof dtv, "%04d-%02d-%02dT%02d:%02d:%02d.%d+%02d:00", 1971 + (k->id * 7 + it) % 60, 1 + (k->id + it) % 12, 1 + (k->id * 3 + it) % 28,
+            (k->id * 5 + it) % 24, (k->id * 11 + it) % 60, (k->id * 13 + it) % 60, k->id, (k->id + it) % 12);
+    snprintf(doc, sizeof doc, DOC_FMT, marker, marker, DOC_UNIONS, dtv);
     r = lyd_parse_data_mem(ctx, doc, LYD_XML, LYD_PARSE_STRICT, LYD_VALIDATE_PRESENT, &t);
     dgi(k, r);
     if (r || !t) { return; }
@@ -360,7 +364,7 @@ do_shared(struct work *k, int it)
         }
         LYD_TREE_DFS_END(w->shared, n);
     }
-    snprintf(doc, sizeof doc, DOC_FMT, "shared", "shared", (k->flags & 16) ? DOC_UNIONS : "");
+    snprintf(doc, sizeof doc, DOC_FMT, "shared", "shared", (k->flags & 16) ? DOC_UNIONS : "", "2024-02-29T12:00:00+01:00");
     if (!lyd_parse_data_mem(w->ctx, doc, LYD_XML, LYD_PARSE_STRICT, LYD_VALIDATE_PRESENT, &priv)) {
         dgi(k, lyd_compare_siblings(w->shared, priv, LYD_COMPARE_FULL_RECURSION | LYD_COMPARE_DEFAULTS));
         lyd_free_all(priv);
@@ -423,7 +427,7 @@ world_new(struct world *w, int flags)
     memset(w, 0, sizeof *w);
     if (ly_ctx_new(NULL, 0, &w->ctx)) return -1;
     if (lys_parse_mem(w->ctx, SCH, LYS_IN_YANG, (struct lys_module **)&w->mod)) return -1;
-    snprintf(doc, sizeof doc, DOC_FMT, "shared", "shared", (flags & 16) ? DOC_UNIONS : "");
+    snprintf(doc, sizeof doc, DOC_FMT, "shared", "shared", (flags & 16) ? DOC_UNIONS : "", "2024-02-29T12:00:00+01:00");
     if (lyd_parse_data_mem(w->ctx, doc, LYD_XML, LYD_PARSE_STRICT, LYD_VALIDATE_PRESENT, &w->shared)) return -1;
     if (flags & 4) {
         char *b = NULL;
